@@ -10,7 +10,7 @@ Import ListNotations.
 From Verif Require Import Base.Out Base.PyValue Base.Decimal.
 From Verif Require Import Model.Compile.
 From Verif Require Model.Eval Model.Exec Model.Order Model.Subquery Model.Pivot Model.Typing.
-Module Ev := Verif.Model.Eval.
+Module Ev := Verif.Model.Eval.     (* `Eval` is a vernacular keyword *)
 Open Scope string_scope.
 Open Scope list_scope.
 
@@ -158,7 +158,12 @@ Fixpoint lower (cols : list (string * ty)) (h : nat) (n : cnode) {struct n} : op
             | Some (e, a) => Some (Ev.EIn (op =? "NotIn") e (Some l), a)
             | None => None
             end
-        | _ => None                         (* IN over a column or a subquery: outside Ev.v *)
+        | [x; NConst (CScalar VNull) _] =>     (* a subquery that returned no row evaluates to None *)
+            match lower cols h x with
+            | Some (e, a) => Some (Ev.EIn (op =? "NotIn") e None, a)
+            | None => None
+            end
+        | _ => None                         (* IN over a column, or a subquery that could not be run: outside Eval.v *)
         end
       else
         match overload_at op i, many h args with
@@ -304,26 +309,88 @@ Definition exec_query (q : cquery) (xq : Exec.query) (table : list row) : rres :
                               end) header) prows
     end.
 
+(* EvalConstantSubquery1D.__call__: [row[0] for row in rows], or None when the subquery returns no row *)
+Definition subquery_items (rows : list row) : cval :=
+  match Subquery.items_of rows with
+  | Some l => CListV l
+  | None => CScalar VNull
+  end.
+
 Section Run.
 Variable sch : schema.
 Variable pv : pvals.
 Variable dat : data.
 
-(* the query of a SELECT and its result; FROM-subqueries are run first (SubqueryTable.__iter__) *)
-Fixpoint run_select (e : expr) (tbl : table) {struct e} : option cquery * rres :=
+(* [go e tbl] = (e with every `x IN (subquery)` whose subquery could be run replaced by `x IN <its items>`,
+                 the query and the result of e when e is a SELECT).
+   FROM-subqueries are run first and feed the enclosing query (SubqueryTable.__iter__); IN-subqueries are run over
+   the table of the enclosing SELECT and inlined as constants, which is what EvalConstantSubquery1D evaluates to. *)
+Fixpoint go (e : expr) (tbl : table) {struct e} : expr * (option cquery * rres) :=
+  let none := (None, RErr ESubqueryPosition) in
+  let many := fix many (l : list expr) : list expr :=
+                match l with [] => [] | x :: t => fst (go x tbl) :: many t end in
   match e with
+  | EFunction f args => (EFunction f (many args), none)
+  | EAnd args => (EAnd (many args), none)
+  | EOr args => (EOr (many args), none)
+  | EAttribute x n => (EAttribute (fst (go x tbl)) n, none)
+  | ESubscript x k => (ESubscript (fst (go x tbl)) k, none)
+  | EUnary op x => (EUnary op (fst (go x tbl)), none)
+  | EBetween a lo hi => (EBetween (fst (go a tbl)) (fst (go lo tbl)) (fst (go hi tbl)), none)
+  | EBinary op l r =>
+      let l' := fst (go l tbl) in
+      if is_in_op op then
+        match r with
+        | ESelect _ _ _ _ _ _ _ _ _ =>
+            match snd (go r tbl) with
+            | (Some _, RRows _ rows) => (EBinary op l' (EConstant (subquery_items rows)), none)
+            | _ => (EBinary op l' r, none)          (* stays a subquery: refused by the lowering *)
+            end
+        | _ => (EBinary op l' (fst (go r tbl)), none)
+        end
+      else (EBinary op l' (fst (go r tbl)), none)
   | ESelect targets fk fe wh grp ord piv lim dist =>
       match comp sch pv e tbl with
-      | Err er => (None, RErr er)
-      | Ok (RNode _) => (None, RErr ESubqueryPosition)
+      | Err er => (e, (None, RErr er))
+      | Ok (RNode _) => (e, none)
       | Ok (RQuery q) =>
+          let tb := cq_table q in
+          let e' :=
+            ESelect (match targets with
+                     | Some l => Some ((fix tl (l : list (expr * option string * string)) :=
+                                          match l with
+                                          | [] => []
+                                          | (x, a, t) :: r => (fst (go x tb), a, t) :: tl r
+                                          end) l)
+                     | None => None
+                     end)
+                    fk fe
+                    (match wh with Some x => Some (fst (go x tb)) | None => None end)
+                    (match grp with
+                     | Some (cols, having) =>
+                         Some ((fix gl (l : list (Z + expr)) :=
+                                  match l with
+                                  | [] => []
+                                  | inl z :: r => inl z :: gl r
+                                  | inr x :: r => inr (fst (go x tb)) :: gl r
+                                  end) cols,
+                               match having with Some h => Some (fst (go h tb)) | None => None end)
+                     | None => None
+                     end)
+                    ((fix ol (l : list ((Z + expr) * bool)) :=
+                        match l with
+                        | [] => []
+                        | (inl z, d) :: r => (inl z, d) :: ol r
+                        | (inr x, d) :: r => (inr (fst (go x tb)), d) :: ol r
+                        end) ord)
+                    piv lim dist in
           let source :=
             match fk with
             | FKTable n => match assoc n dat with Some rows => inl rows | None => inr (RNot 1) end
             | FKSelect =>
                 match fe with
                 | Some sub =>
-                    match run_select sub tbl with
+                    match snd (go sub tbl) with
                     | (Some qi, RRows _ rows) => inl (subquery_rows qi rows)
                     | (_, RRaise) => inr RRaise
                     | (_, RNot s) => inr (RNot s)
@@ -334,16 +401,22 @@ Fixpoint run_select (e : expr) (tbl : table) {struct e} : option cquery * rres :
             | _ => inr (RNot 1)               (* no FROM / FROM expression: the Beancount postings table *)
             end in
           match source with
-          | inr r => (Some q, r)
+          | inr r => (e', (Some q, r))
           | inl rows =>
-              match lower_query q with
-              | Some xq => (Some q, exec_query q xq rows)
-              | None => (Some q, RNot 3)
+              match comp sch pv e' tbl with
+              | Ok (RQuery q') =>
+                  match lower_query q' with
+                  | Some xq => (e', (Some q, exec_query q' xq rows))
+                  | None => (e', (Some q, RNot 3))
+                  end
+              | _ => (e', (Some q, RNot 3))
               end
           end
       end
-  | _ => (None, RErr ESubqueryPosition)
+  | _ => (e, none)
   end.
+
+Definition run_select (e : expr) (tbl : table) : option cquery * rres := snd (go e tbl).
 End Run.
 
 Definition run (sch : schema) (p : params) (dat : data) (s : stmt) : rres :=
